@@ -122,16 +122,18 @@ fn lim_err(r: &Xresult, which: &str) -> bool {
 struct Ctx<'a> {
     rep: &'a Reporter,
     src: &'a str,
+    recording: bool,
 }
 impl<'a> Ctx<'a> {
     fn report(&self, key: &str, lim: Lim, detail: String) {
         let src = self.src.to_string();
-        self.rep.report_w(key, src.len() as u64, || jo(vec![("kind", js("limits")), ("source", js(src.clone())), ("limit", js(format!("{:?}", lim))), ("problem", js(detail.clone()))]));
+        let rec = self.recording;
+        self.rep.report_w(key, src.len() as u64 + rec as u64, || jo(vec![("kind", js("limits")), ("reverse_recording", J::B(rec)), ("source", js(src.clone())), ("limit", js(format!("{:?}", lim))), ("problem", js(detail.clone()))]));
     }
 }
 
 fn check_program(base: &Xstate, src: &str, rep: &Reporter, stats: &mut BTreeMap<String, u64>) -> Result<(u64, u64), String> {
-    let cx = Ctx { rep, src };
+    let cx = Ctx { rep, src, recording: base.is_recording() };
     let mut v = vec![];
     let mut u = stepped(base, src, None, &mut v)?;
     if u.trace.len() > STEP_CAP {
@@ -407,18 +409,25 @@ pub fn run(cfg: &Cfg) -> i32 {
     let nsteps = AtomicU64::new(0);
     // (a) hand-written growth-path programs
     let progs = programs();
-    par_run(cfg.threads, progs.len(), 1, |_t, pull| {
+    // each of them with reverse recording off and on (the recording paths of the stack words are separate code)
+    par_run(cfg.threads, progs.len() * 2, 1, |_t, pull| {
         let base = boot();
+        let mut rec_base = boot();
+        rec_base.set_recording_enabled(true);
         let mut local = BTreeMap::new();
         while let Some(r) = pull() {
-            for i in r {
+            for j in r {
+                let (i, rec) = (j / 2, j % 2 == 1);
                 nprog.fetch_add(1, Ordering::Relaxed);
-                match check_program(&base, &progs[i], &rep, &mut local) {
+                match check_program(if rec { &rec_base } else { &base }, &progs[i], &rep, &mut local) {
                     Ok((a, b)) => {
                         nruns.fetch_add(a, Ordering::Relaxed);
                         nsteps.fetch_add(b, Ordering::Relaxed);
+                        if rec {
+                            bump(&mut local, "recording-on:programs");
+                        }
                     }
-                    Err(p) => rep.report_w("panic", progs[i].len() as u64, || jo(vec![("source", js(progs[i].clone())), ("panic", js(p))])),
+                    Err(p) => rep.report_w("panic", progs[i].len() as u64, || jo(vec![("source", js(progs[i].clone())), ("recording", J::B(rec)), ("panic", js(p))])),
                 }
             }
         }
@@ -606,7 +615,7 @@ pub fn run(cfg: &Cfg) -> i32 {
                             };
                             let after = pt(&xs);
                             let lim = Lim::Stack(Some(s_lim));
-                            let cx = Ctx { rep: &rep, src: &src };
+                            let cx = Ctx { rep: &rep, src: &src, recording: false };
                             if after.stack > s_lim.max(k) {
                                 cx.report("stack-exceeds-limit", lim, format!("{} items were on the stack when the limit was set; afterwards it holds {}", k, after.stack));
                             }
@@ -630,7 +639,7 @@ pub fn run(cfg: &Cfg) -> i32 {
                 watch::note(AsRef::<str>::as_ref(&src));
                 let r = guarded(|| xs.eval(src)).unwrap_or(Err(Xerr::InternalError));
                 let allocates = src.contains("var") || src.contains("let");
-                let cx = Ctx { rep: &rep, src };
+                let cx = Ctx { rep: &rep, src, recording: false };
                 if allocates && r.is_ok() {
                     cx.report("heap-limit:not-enforced", Lim::Heap(Some(h)), format!("the heap already holds {} cells, the limit is {}, and `{}` still allocated", h0, h, src));
                 }
